@@ -231,6 +231,16 @@ func setDefault(m int) { decimal128.DefaultRoundingMode = decimal128.RoundingMod
 
 func currentDefault() int { return int(decimal128.DefaultRoundingMode) }
 
+// Stride chooses a tier-dependent step of a systematic sweep and scales it
+// inversely with the run's scale (the coverage flavour runs at 1/10 scale).
+func (c *Ctx) Stride(quick, thorough int) int {
+	s := float64(c.Pick(quick, thorough)) / c.Scale
+	if s < 1 {
+		return 1
+	}
+	return int(s + 0.5)
+}
+
 // Pick chooses a tier-dependent constant (not scaled).
 func (c *Ctx) Pick(quick, thorough int) int {
 	if c.Tier == "thorough" {
